@@ -738,6 +738,11 @@ def accept_mirror(rep, c, r):
         if uq not in (None, "None") and any(n not in [k for k, _ in fps[j + 1]["columns"]] for n in eval(uq)):
             rep.count("mirror:joint-unique-names-removed-column")
             return False
+        if uq not in (None, "None") and op["op"] == "add" and any(k_ in eval(uq) for k_ in op["keys"]):
+            # a jointly unique column is replaced: whether the data written for the new column keeps the rows distinct is a
+            # property of that data, not of the transformation
+            rep.count("mirror:joint-unique-column-replaced")
+            return False
         reasons = []
         v = verdict(schemas[j + 1], df2, reasons)
         rep.count("mirror:" + v.split(":")[0])
